@@ -121,7 +121,8 @@ CLAIMED = {
              "weighted parts (hence the same step A/B results, totals, RER), the same structure and the same step "
              "records in permuted order (C09_perm, C09_perm_steps); for every m >= 1, with the values of both layouts in "
              "the domain, subdivision into m equal sub-steps gives the same weighted parts and every step record replaced "
-             "by m copies scaled by 1/m, load matching factor unchanged (C09_subdivide); the derived cogeneration factor "
+             "by m copies scaled by 1/m, load matching factor unchanged (C09_subdivide; C09_subdivide_any_values: for every "
+             "component set with non-negative values, no floor on the values since fix c3bd83b); the derived cogeneration factor "
              "is invariant in both cases (needs the annual-ratio factor, fix 55df7f9); normalisation commutes with both "
              "re-layouts (C09_normalize_perm, C09_normalize_subdivide: completions and reassigned auxiliary components of the "
              "re-laid-out building are the re-laid-out ones), so the statements hold from the declared components "
@@ -158,9 +159,10 @@ CLAIMED = {
              "values are in the domain (zero or >= 0.01 kWh), energy_performance of the building with all energies "
              "(components and demands) multiplied by k is the scaled evaluation: same error, or the same structure and "
              "factors with every step record, annual value and weighted part multiplied by k; load matching factors, "
-             "service shares, RER, RER_nrb, RER_onst unchanged; normalisation commutes with the scaling (C11_normalize_scale), so this "
-             "holds from the declared components. Area law from C04 (C11_area). A lemma documents why the "
-             "domain hypothesis is needed (the 1e-3 guard). Oracle: exact scale factors 2^-6..2^10 and 0.1, 3, 1000, area "
+             "service shares, RER, RER_nrb, RER_onst unchanged (C11_energy_any_values: for every component set with non-negative "
+             "values, no floor needed since fix c3bd83b); normalisation commutes with the scaling (C11_normalize_scale), so this "
+             "holds from the declared components. Area law from C04 (C11_area). An example documents that the former "
+             "1e-3 guard no longer bites. Oracle: exact scale factors 2^-6..2^10 and 0.1, 3, 1000, area "
              "factors, incl. the DHW renewable fraction.",
         design_ref="DESIGN.md §6 C11",
         note="Trusted: Coq kernel + vm_compute; model tied by differential testing. Invariance of the DHW fraction under scaling is a differential fact only (thresholds of 0.01 kWh in the fraction).",
